@@ -213,7 +213,7 @@ LH_COLS = [[], ['width'], ['height', 'duration'], ['size', 'is_dir'], ['sha1'], 
 def link_history_groups():
     # what was looked at before a link is met must not decide whether it is followed: columns that look through links, entries above the
     # depth window, links whose texts name the same place from different directories
-    for scen in ('earlier-root', 'lexical-twin'):
+    for scen in ('earlier-root', 'lexical-twin', 'dots-behind-link'):
         for ci in range(len(LH_COLS)):
             for mind in (None, 2, 3):
                 for mode in ('', 'dfs'):
@@ -386,6 +386,12 @@ def eval_link_history(env, group):
                                   'albums': D({'trip': L('../store'), 'gone': L('../nowhere'), 'file': L('../pics/q.txt'), 'k': F(1)})})
         roots = ['pics', 'albums', 'dirs', 'albums']        # the root with the links comes after a root of files and after a root of directories
         variants = [['pics', 'albums'], ['dirs', 'albums'], ['albums'], ['pics', 'dirs', 'albums']]
+    elif group['scen'] == 'dots-behind-link':
+        # a link made of dots only, inside a directory that was itself reached through a link: the dots climb from where that directory really is
+        core.materialise(holder, {'root': D({'a': D({'b': D({'jump': L('../../../out/d'), 'k': F(1)}), 'side': L('../../out2/in')}), 'same': L('.'), 'upa': D({'u': L('..')})}),
+                                  'out': D({'beside.txt': F(1), 'd': D({'up': L('..'), 'f': F(1), 'deep': D({'up2': L('../..'), 'g': F(1)})}), 'other': D({'far.txt': F(1)})}),
+                                  'out2': D({'in': D({'dotup': L('./..'), 'h': F(1)}), 'near': D({'n.txt': F(1)})})})
+        variants = [['root'], ['root/a'], ['root/a/b'], ['root/upa']]      # (one root each: what a second root repeats of the first is not stated)
     else:
         core.materialise(holder, {'root': D({'aaa': L('shared'), 'pkgs': L('../store/v1'), 'zzz': L('shared'), 'mid': D({'m': F(1)})}),
                                   'store': D({'v1': D({'lib': L('../shared'), 'bin': D({'b': F(1)})}), 'shared': D({'s1': F(1), 'sd': D({'s2': F(1)})})}),
